@@ -82,7 +82,7 @@ where
 /*@*/         (old_range.end - old_range.start) <= u32::MAX || (new_range.end - new_range.start) <= u32::MAX,   // table cells are u32
 /*@*/     ensures
 /*@*/         err_post(*vstd::prelude::old(d), *final(d), res),
-/*@*/         seg_post(*vstd::prelude::old(d), *final(d), old, old_range, new, new_range, alg_lvl(deadline), fin::<D>(), res.is_ok()),
+/*@*/         seg_post(*vstd::prelude::old(d), *final(d), old, old_range, new, new_range, alg_lvl(deadline), false, fin::<D>(), res.is_ok()),
 {
     /*@*/ broadcast use {axiom_pure_index, axiom_pure_eq};
     /*@*/ let ghost rel = rel_of(old, new); let ghost lvl = alg_lvl(deadline);
@@ -250,7 +250,7 @@ where
 /*@*/         (old_range.end - old_range.start) <= u32::MAX || (new_range.end - new_range.start) <= u32::MAX,   // table cells are u32
 /*@*/     ensures
 /*@*/         err_post(*vstd::prelude::old(d), *final(d), res),
-/*@*/         seg_post(*vstd::prelude::old(d), *final(d), old, old_range, new, new_range, alg_lvl(None), fin::<D>(), res.is_ok()),
+/*@*/         seg_post(*vstd::prelude::old(d), *final(d), old, old_range, new, new_range, alg_lvl(None), false, fin::<D>(), res.is_ok()),
 {
     diff_deadline(d, old, old_range, new, new_range, None)
 }
